@@ -51,7 +51,9 @@ def _migrate_v1_to_v2(root_directory):
     # Try to migrate a custom workspace directory if one exists.
     current_workspace_name = cfg.get("workspace_dir")
     if current_workspace_name is not None:
-        if current_workspace_name != "workspace":
+        # './workspace' and 'workspace/' are spellings of the default, not custom
+        # directories that would collide with it.
+        if os.path.normpath(current_workspace_name) != "workspace":
             current_workspace = os.path.join(root_directory, current_workspace_name)
             new_workspace = os.path.join(root_directory, "workspace")
             if os.path.exists(new_workspace):
